@@ -247,6 +247,12 @@ def alphabet(ctx, keys, grid, vals):
     for g in gap[:2]:
         reads += [('minKey', g), ('maxKey', g)]
     reads += [('minKey',), ('maxKey',)]
+    # range searches with in-domain bounds: every universe key as exclusive / inclusive upper and
+    # lower bound (the two implementations repair a missed bound by different means)
+    for k in keys:
+        reads += [('rkeysx', None, k, False, True), ('rkeysx', k, None, True, False),
+                  ('rkeysx', None, k, False, False), ('maxKey', k), ('minKey', k)]
+    reads += [('rkeysx', None, None, True, True), ('rkeysx', gap[0], gap[-1], True, True)]
     return ops, reads, writes, vwrites
 
 
@@ -284,6 +290,9 @@ def eq_contents(a, b):
 
 def apply(ctx, t, op):
     mop = materialize(op)
+    if mop[0] == 'rkeysx':
+        # ('rkeysx', min, max, excludemin, excludemax) with in-domain bounds
+        return O.outcome(lambda: list(t.keys(mop[1], mop[2], mop[3], mop[4])))
     if mop[0] == 'rkeys':
         kw = {}
         if mop[1] is not None:
